@@ -689,6 +689,19 @@ def _make_const2ndorder_virtual_point_evaluator(
     # calculate necessary constants
     data = _get_virtual_point_data_2ndorder(bc)
 
+    if bc.value_is_linked:
+        # the value is linked to an external array and must be read when it is used
+        const_func = _make_value_getter(bc)  # type: ignore
+        scale = bc.grid.discretization[bc.axis] ** 2
+
+    else:
+        const_val = data[0]
+        scale = 1.0
+
+        @register_jitable
+        def const_func():
+            return const_val
+
     if bc.homogeneous:
 
         @register_jitable
@@ -701,7 +714,7 @@ def _make_const2ndorder_virtual_point_evaluator(
             else:
                 val1 = arr_1d[..., data[2]]
                 val2 = arr_1d[..., data[4]]
-            return data[0] + data[1] * val1 + data[3] * val2
+            return const_func() * scale + data[1] * val1 + data[3] * val2
 
     else:
 
@@ -715,6 +728,10 @@ def _make_const2ndorder_virtual_point_evaluator(
             else:
                 val1 = arr_1d[..., data[2]]
                 val2 = arr_1d[..., data[4]]
-            return data[0][bc_idx] + data[1][bc_idx] * val1 + data[3][bc_idx] * val2
+            return (
+                const_func()[bc_idx] * scale
+                + data[1][bc_idx] * val1
+                + data[3][bc_idx] * val2
+            )
 
     return virtual_point  # type: ignore
